@@ -645,7 +645,7 @@ Definition decode_op (code a b : Z) : op :=
   if code =? 5 then OReset else
   if code =? 6 then OEmit a else
   if code =? 7 then ORaw a else
-  if code =? 8 then OThrow a else
+  if code =? 8 then OThrow (a + 1000000 * b) else   (* b = total length of the long message form, 0 = short *)
   if code =? 9 then OPoke a b else
   if code =? 11 then OThrowForeign else
   if code =? 12 then OPoke2 a b else ONop.
